@@ -325,3 +325,11 @@ has passed reports a failure for a request the kernel acknowledged — after a w
 no check can reproduce for every conceivable limit, which is why it is an obligation and the direct probe
 (`probe-long-wait` in the client driver) only covers limits of a few seconds. -/
 theorem C08_reply_wait_reads_no_clock : LA.Gen.ClientFacts.clientClocks = [] := by decide
+
+/-- What the root package reads of the process it runs in is the clock (the Reassembler's deadlines, which the model is
+given as readings), the process id (an input of SetPID) and the page size (the default receive buffer): `envReads`,
+regenerated with go/types on every run, lists the package-level functions of os, os/user, os/exec, net, runtime,
+math/rand, crypto/rand that are called, time.Now / Since / Until, file-system functions of path/filepath and process
+queries of syscall. Nothing else of the machine — processors, environment variables, files, random numbers — can
+influence what the Reassembler or the client does. -/
+theorem C08_environment_is_clock_pid_pagesize : LA.StateFacts.envOf "" = LA.StateFacts.rootEnv := by decide
